@@ -67,6 +67,47 @@ def des_wiring_violations(drv, bundles, pid, limit=None):
     return out, len(keep)
 
 
+def check_port_structures(res, rng, n):
+    """directed: a component input declared WITH a structure whose strands are all [dummy] (the placeholder complex of the incoming
+    signal), instantiated behind a component that exports the same signal with a structure.  The clause judged here is the last one of
+    the property: EVERY structure is listed with its target and its optimisation bound (one `<name> < bound` line iff the source bound
+    is non-zero), placeholders included."""
+    import re as _re
+    for k in range(n):
+        t_, d_, tl, x3 = rng.randint(3, 6), rng.randint(5, 9), rng.randint(2, 6), rng.randint(1, 4)
+        b_out, b_in, b_gate = rng.choice([1, 2, 3.5]), rng.choice([1, 3, 0.5, 4]), rng.choice([2, 5])
+        up = ('declare component up: -> out(OUT)\nsequence toe = "%dN"\nsequence dom = "%dN"\nsequence out = toe dom\nstrand Out = out "%dN"\n'
+              'structure [%snt] OUT = Out : %d.\n' % (t_, d_, x3, b_out, t_ + d_ + x3))
+        down = ('declare component down: in(IN) ->\nsequence toe = "%dN"\nsequence dom = "%dN"\nsequence tail = "%dN"\nsequence in = toe dom\n'
+                'strand [dummy] In = in tail\nstrand Base = dom* toe*\nstructure [%snt] IN = In : %d.\n'
+                'structure [%snt] Gate = In + Base : %d( %d. + %d)\nstructure [no-opt] Free = Base : %d.\n'
+                % (t_, d_, tl, b_in, t_ + d_ + tl, b_gate, t_ + d_, tl, t_ + d_, t_ + d_))
+        sysx = "declare system demo: ->\nimport up, down\ncomponent U = up: -> sig\ncomponent D = down: sig ->\n"
+        b = progen.Bundle(); b.texts.update({"up.comp": up, "down.comp": down, "demo.sys": sysx}); b.entry = "demo"; b.directed = True
+        r = impl.compile_bundle(b, "des")
+        res.evaluations += 1
+        res.count("directed:input-port-with-all-dummy-structure")
+        inp = {"files": b.texts, "entry": "demo"}
+        if not r["ok"]:
+            res.violations.append({"what": "a well-formed system (input port with a placeholder structure) is rejected by the .des back-end: %s" % r.get("exc"),
+                                   "input": inp, "sig": "C03:rejects-valid", "cmd": "pepper-compiler --des demo"})
+            continue
+        bounds = {}
+        for line in r["text"].split("\n"):
+            m = _re.match(r"^\s*(\S+)\s*<\s*([0-9.eE+-]+)\s*$", line)
+            if m:
+                bounds.setdefault(m.group(1), []).append(float(m.group(2)))
+        want = {"U-OUT": float(b_out), "D-IN": float(b_in), "D-Gate": float(b_gate)}
+        for name, val_ in want.items():
+            if bounds.get(name) != [val_]:
+                res.violations.append({"what": "structure %s has the bound %gnt in the source, the .des lists %r for it" % (name, val_, bounds.get(name, [])),
+                                       "input": inp, "observed": {k_: v_ for k_, v_ in bounds.items()}, "sig": "C03:bound-line", "cmd": "pepper-compiler --des demo"})
+                break
+        if "D-Free" in bounds:
+            res.violations.append({"what": "structure D-Free is [no-opt] in the source but has a bound line in the .des", "input": inp,
+                                   "sig": "C03:bound-line", "cmd": "pepper-compiler --des demo"})
+
+
 def run(st, tier, seed):
     res = Result("C03")
     res.rule = ("component and system programs from the shared generator (as C01/C02), compiled with the .des back-end; "
@@ -84,6 +125,7 @@ def run(st, tier, seed):
     exb = compile_check.example_bundles(rng, 10 if tier == "quick" else 200)
     res.count("repository-examples", len(exb))
     bundles += exb
+    check_port_structures(res, rng, 4 if tier == "quick" else 60)
     # correspondence (model vs impl, des lines)
     compile_check.run_bundles(st, res, bundles, "C03", "program", fmt="des")
     res.violations = [v for v in res.violations if not v["sig"].startswith("C03:denotation")]  # PIL oracle does not apply to des text
